@@ -74,8 +74,11 @@ def const_arg(body, a):
     return None
 
 
-def buffer_events(body, buf, db=None):
-    """calls that append to local `buf` (directly, through &mut reborrows, or through a closure capturing &mut buf), in RPO"""
+def buffer_events(body, buf, db=None, prim=None, _frames=(), _depth=0):
+    """calls that append to local `buf` (directly, through &mut reborrows, or through a closure capturing &mut buf), in RPO.
+    prim: set of callee short names the caller's layout treats as primitive appends; when given, any other function of the same crate that
+    receives the buffer by `&mut` is inlined (its own appends take its place, up to depth 4), so that extracting a stretch of appends
+    into a helper does not change the trace.  Inlined events carry `body` (where their operands live) and `frames` (the call chain)."""
     order = rpo(body)
     loops = loop_blocks(body)
     ev = []
@@ -83,19 +86,43 @@ def buffer_events(body, buf, db=None):
         t = body.blocks[bi]["term"]
         if t["k"] != "call" or not t["args"]:
             continue
-        hit = False
-        for a in t["args"]:
-            if targets_buffer(body, a, buf):
-                hit = True
-        if not hit:
+        hits = [i for i, a in enumerate(t["args"]) if targets_buffer(body, a, buf)]
+        if not hits:
             continue
         d = callee_def(t)
         if flow.is_transparent(t) or d.endswith("::with_capacity") or d.endswith("::reserve"):
             continue
+        if prim is not None and db is not None and _depth < 4 and short(d) not in prim and len(hits) == 1:
+            cb = db.bodies.get(t["callee"].get("resolved") or "") or db.bodies.get(d)
+            if cb is not None and cb.crate == body.crate and cb.kind in ("Fn", "AssocFn") and cb.name != body.name:
+                sub = buffer_events(cb, hits[0] + 1, db, prim, _frames + ((body, t, cb),), _depth + 1)
+                if bi in loops:
+                    for e in sub:
+                        e["in_loop"] = True
+                ev.extend(sub)
+                continue
         args = [a for a in t["args"] if not targets_buffer(body, a, buf)]
-        ev.append({"bi": bi, "callee": d, "short": short(d), "consts": [const_arg(body, a) for a in args], "args": args,
-                   "in_loop": bi in loops, "line": t["span"]["line"]})
+        consts = [const_arg(body, a) for a in args]
+        # a constant handed down through a parameter of an inlined helper
+        for i, a in enumerate(args):
+            if consts[i] is None and _frames:
+                consts[i] = _const_through_frames(body, a, _frames)
+        ev.append({"bi": bi, "callee": d, "short": short(d), "consts": consts, "args": args,
+                   "in_loop": bi in loops, "line": t["span"]["line"], "body": body, "frames": _frames})
     return ev
+
+
+def _const_through_frames(body, a, frames):
+    r = flow.resolve_place(body, a)
+    if r is None or r[1] or not (1 <= r[0] <= body.argc) or not frames:
+        return None
+    caller, term, _ = frames[-1]
+    if r[0] - 1 >= len(term["args"]):
+        return None
+    c = const_arg(caller, term["args"][r[0] - 1])
+    if c is None:
+        return _const_through_frames(caller, term["args"][r[0] - 1], frames[:-1])
+    return c
 
 
 def describe(ev):
